@@ -4,7 +4,7 @@ import Driver.Text
 drv_vinegar ops (not verified; exercised on every line of the C09 correspondence):
 
   vin load <r> <env> <fmt> <settable> <payload>
-  vin rt   <s><k> <r> <env> <fmt> <settable> <hd> <tb> <args> <reprs> <dir>
+  vin rt   <s><k><d|e> <r> <env> <fmt> <settable> <hd> <tb> <args> <reprs> <dir> <walk>
 
   <r>    three of T/F: import_custom_exceptions, instantiate_custom_exceptions, instantiate_oldstyle_exceptions
   <s><k> four of T/F (include_local_traceback, include_local_version, propagate_SystemExit_locally,
@@ -15,10 +15,14 @@ drv_vinegar ops (not verified; exercised on every line of the C09 correspondence
   <fmt>  N (unused) | S.. ("%s.%s" % (modname, clsname)) | ( S<error name> )
   <settable> ( ( S<name> <value> I0|S<error name> T|F ) ... ): the setattr outcomes that are not "stored"
          (I0 = AttributeError, swallowed); last field: the row is about the generic stand-in (T) / the real class (F)
-  <hd> ( S<module> S<name> )   <tb> S..   <args> ( v .. ) with O<k> for what brine cannot carry
+  d = `vinegar.dump` then load; e = `Connection._send_exception` (fallback record when dump or brine raises) then load
+  <tb> S.. | ( S<error name> ) when traceback.format_exception raises;  <walk> N | ( S<error name> ): the first error
+  raised by repr()/getattr during dump's walk
+  <hd> ( S<module> S<name> )   <args> ( v .. ) with O<k> for what brine cannot carry
   <reprs> ( S..|N .. ) parallel to args   <dir> ( ( S<name> I<0 AttributeError|1 data|2 other> <value> S<repr>|N ) .. )
 
-Outputs:  load: `imp <tuple of module names> init <n> out <outcome> | <seen>`;  rt: `local` or `pay <payload> | ` + the same.
+Outputs:  load: `imp <tuple of module names> init <n> out <outcome> | <seen>`;
+  rt: `local` | `pay err <E>` (dump raises) | `noreply err <E>` | `pay <payload> | ` + the same as load.
 -/
 namespace Rpyc.Drv
 open Rpyc Rpyc.Vinegar
@@ -86,13 +90,26 @@ def recvCfg (s : String) : Option RecvCfg :=
   | some [a, b, c] => some ⟨a, b, c⟩
   | _ => none
 
-def sendCfg (s : String) : Option (SendCfg × ClsKind) :=
+/-- four switches, b|c (built-in object or not), d|e (direct: `vinegar.dump` alone; end to end: `_send_exception`) -/
+def sendCfg (s : String) : Option (SendCfg × ClsKind × Bool) :=
   match s.toList with
-  | [a, b, c, d, k] =>
-    match flags (String.ofList [a, b, c, d]), k with
-    | some [w, x, y, z], 'b' => some (⟨w, x, y, z⟩, .builtin)
-    | some [w, x, y, z], 'c' => some (⟨w, x, y, z⟩, .custom)
-    | _, _ => none
+  | [a, b, c, d, k, m] =>
+    match flags (String.ofList [a, b, c, d]), k, m with
+    | some [w, x, y, z], 'b', 'd' => some (⟨w, x, y, z⟩, .builtin, false)
+    | some [w, x, y, z], 'c', 'd' => some (⟨w, x, y, z⟩, .custom, false)
+    | some [w, x, y, z], 'b', 'e' => some (⟨w, x, y, z⟩, .builtin, true)
+    | some [w, x, y, z], 'c', 'e' => some (⟨w, x, y, z⟩, .custom, true)
+    | _, _, _ => none
+  | _ => none
+
+def tbOf : Val → Option (Except Err Str)
+  | .str s => some (.ok s)
+  | .tuple [.str n] => some (.error (errOfCps n))
+  | _ => none
+
+def walkOf : Val → Option (Option Err)
+  | .none => some none
+  | .tuple [.str n] => some (some (errOfCps n))
   | _ => none
 
 def pyObj (v r : Val) : Option PyObj :=
@@ -117,10 +134,10 @@ def dirEntry : Val → Option DirEntry
   | _ => none
 
 def excRec (kind : ClsKind) : List Val → Option ExcRec
-  | [.tuple [.str m, .str n], .str tb, .tuple args, .tuple reprs, .tuple dir] =>
-    match zipObjs args reprs, dir.mapM dirEntry with
-    | some as, some ds => some ⟨⟨m, n, kind⟩, as, ds, tb⟩
-    | _, _ => none
+  | [.tuple [.str m, .str n], tb, .tuple args, .tuple reprs, .tuple dir, walk] =>
+    match zipObjs args reprs, dir.mapM dirEntry, tbOf tb, walkOf walk with
+    | some as, some ds, some t, some w => some ⟨⟨m, n, kind⟩, as, ds, t, w⟩
+    | _, _, _, _ => none
   | _ => none
 
 def showCls : ClsRef → String
@@ -160,11 +177,17 @@ def vinegarOp : List String → String
     | _, _ => "bad-op"
   | "rt" :: s :: r :: envs :: toks =>
     match sendCfg s, recvCfg r, parseVals toks with
-    | some (sc, kind), some rc, some (fmt :: tbl :: recToks) =>
+    | some (sc, kind, e2e), some rc, some (fmt :: tbl :: recToks) =>
       match mkEnv envs fmt tbl, excRec kind recToks with
       | some env, some e =>
-        if routedLocally sc e then "local"
-        else "pay " ++ showVal (dumpExc sc e) ++ " | " ++ showLoad (loadExc rc env (dumpExc sc e))
+        if e2e then
+          if routedLocally sc e then "local"
+          else match boxExc sc e with
+            | .error err => "noreply err " ++ err.name
+            | .ok p => "pay " ++ showVal p ++ " | " ++ showLoad (loadExc rc env p)
+        else match dumpExc sc e with
+          | .error err => "pay err " ++ err.name
+          | .ok p => "pay " ++ showVal p ++ " | " ++ showLoad (loadExc rc env p)
       | _, _ => "bad-op"
     | _, _, _ => "bad-op"
   | _ => "bad-op"
